@@ -211,7 +211,7 @@ pub fn outcome_class(s: &StepOut) -> String {
 
 pub fn short_loc(loc: &str) -> String {
     // strip everything up to the crate-relative path
-    if let Some(p) = loc.find("/src/") {
+    if let Some(p) = loc.rfind("/src/") {
         let head = &loc[..p];
         let krate = head.rsplit('/').next().unwrap_or("");
         format!("{}{}", krate, &loc[p..])
@@ -803,6 +803,14 @@ impl Check for C05 {
                     continue;
                 }
                 seen.insert(key, ());
+                // every reported failure must replay: confirm by re-execution first
+                let mut cexecs = 0;
+                if self.still_differs(w, &scn, &p, si, &stream, &mut cexecs).is_none() {
+                    rep.execs += cexecs;
+                    rep.count("harness.unconfirmed_findings", 1);
+                    continue;
+                }
+                rep.execs += cexecs;
                 let (mscn, mp, msi, dims, mshape, execs) = self.minimise(w, &scn, Some(&wl), &p, si, &stream, &shape);
                 rep.execs += execs;
                 let class = mscn.steps.get(msi).map(|s| s.class.clone()).unwrap_or_default();
